@@ -733,8 +733,29 @@ def clamps(ctx):
     ctx.ob("R13.7", "Color.crimp[lower]", lo is not None and lo[1] == 0 and ((lo[0] == 0) or (lo[0] == -1 and lo[2] == "LtE")), str(lo), fn.lineno,
            "channel values below 0 must clamp to 0")
     last = fn.body[-1]
-    ctx.ob("R13.7", "Color.crimp[identity]", isinstance(last, ast.Return) and ast.unparse(last.value) in ("int(%s)" % p, p, "int(round(%s))" % p), ast.unparse(last), last.lineno,
-           "in-range channel values pass unchanged")
+
+    def nearest(v):
+        """int(round(p)) / round(p) / int(ceil(p - 0.5)) / int(floor(p + 0.5)): an integer passes unchanged, a float goes to the nearest level"""
+        while isinstance(v, ast.Call) and call_name(v) == "int" and len(v.args) == 1:
+            v = v.args[0]
+        if isinstance(v, ast.Call) and call_name(v) == "round" and len(v.args) == 1 and isinstance(v.args[0], ast.Name) and v.args[0].id == p:
+            return True
+        if isinstance(v, ast.Call) and call_name(v) in ("ceil", "floor", "math.ceil", "math.floor") and len(v.args) == 1 and isinstance(v.args[0], ast.BinOp):
+            b = v.args[0]
+            want = ast.Sub if call_name(v).endswith("ceil") else ast.Add
+            return isinstance(b.op, want) and isinstance(b.left, ast.Name) and b.left.id == p and isinstance(b.right, ast.Constant) and b.right.value == 0.5
+        return False
+
+    truncates = isinstance(last, ast.Return) and ast.unparse(last.value) in ("int(%s)" % p, p)
+    ok_id = isinstance(last, ast.Return) and (truncates or nearest(last.value))
+    ctx.ob("R13.7", "Color.crimp[identity]", ok_id, ast.unparse(last), last.lineno, "in-range channel values pass unchanged")
+    # float channels reach crimp from the hsl conversion (255.0 * ...): the level must be the nearest one, not the one below
+    hsl = ctx.fn("Color.hsl_to_int", "R13.7")
+    float_channels = any(isinstance(b, ast.BinOp) and isinstance(b.op, ast.Mult) and any(isinstance(c, ast.Constant) and isinstance(c.value, float) for c in (b.left, b.right)) for b in ast.walk(hsl))
+    rounded_before = all(isinstance(a, ast.Call) and call_name(a) in ("round", "int") for c in ast.walk(hsl) if isinstance(c, ast.Call) and call_name(c) == "Color.rgb_to_int" for a in c.args[:3])
+    ctx.ob("R13.7", "Color.crimp[float channel -> nearest level]", (not float_channels) or rounded_before or (isinstance(last, ast.Return) and nearest(last.value)),
+           "crimp ends in `%s`; hsl_to_int hands it float channels%s" % (ast.unparse(last), "" if not rounded_before else " already rounded"), last.lineno,
+           "a float channel such as 254.99999999999997 or 31.875 (hsl(60,100%,50%), hsl(0,75%,50%)) is cut to the level below: the colour is one level off and writing h/s/l back drifts")
     fn = ctx.fn("Color.rgb_to_int", "R13.7")
     op = fn.args.args[3].arg
     his = los = None
